@@ -36,7 +36,6 @@ contract(O + "Destinations.send", props=["C08", "C12", "C07", "C13"], shards=6,
                 "log_message#0": [("NREP", "NREP + 1"), ("REP", "REP + [E] + R"), ("MORE", "MORE + DOFF")]},
          after_raise={"Dest.__call__#0": [("NEW", "NEW + [Ev('offer', self, message, True, exc)]")]},
          requires=[("current-ok", "cur_ok()"),
-                   ("current-rep-ok", "implies(curact() is not None, rep_ok(typed(curact(), 'Action')))"),
                    ("message-private", "ref(message) != ref(self._globalFields) and "
                     "forall(lambda a: box(message) != a._identification and box(message) != a._successFields, 'ref:obj')")],
          modifies=LOGGING_FRAME + ["dict(message)", "field:$uuid_str"],
@@ -44,7 +43,7 @@ contract(O + "Destinations.send", props=["C08", "C12", "C07", "C13"], shards=6,
                     "modifies": ["#OFFERS", "#IO", "#NTOP", "seq(ERRS)"],
                     "inv": [("offers-so-far", "OFFERS == old(OFFERS) + NEW and len(NEW) == _i"),
                             ("each-destination-once-in-order", "proj_a(NEW) == _done and all_b(NEW, message) and all_tag(NEW, 'offer')"),
-                            ("current-ok", "cur_ok() and implies(curact() is not None, rep_ok(typed(curact(), 'Action')))"),
+                            ("current-ok", "cur_ok()"),
                             ("errors-are-the-failures-unless-report", "len(seq(ERRS)) == ite(%s, 0, count_failed(NEW))" % IS_REPORT_MSG),
                             ("errors-are-exceptions", "forall(lambda k: implies(0 <= k and k < len(seq(ERRS)), isinst(seq(ERRS)[k], 'Exception')), 'int')"),
                             ("message-stable", "dict_of(message) == update(old(dict_of(message)), old(dict_of(self._globalFields)))"),
@@ -53,7 +52,7 @@ contract(O + "Destinations.send", props=["C08", "C12", "C07", "C13"], shards=6,
                     "modifies": LOGGING_FRAME + ["field:$uuid_str"],
                     "inv": [("one-report-per-processed-failure", "NREP == _i and LOG == old(LOG) + REP and all_reports(REP)"),
                             ("offers-of-reports-follow", "OFFERS == old(OFFERS) + NEW + MORE"),
-                            ("current-ok", "cur_ok() and implies(curact() is not None, rep_ok(typed(curact(), 'Action')))"),
+                            ("current-ok", "cur_ok()"),
                             ("positions", "only_changed('_last_child', curact())"),
                             ("message-stable", "dict_of(message) == update(old(dict_of(message)), old(dict_of(self._globalFields)))"),
                             ("destinations-stable", "seq(self._destinations) == old(seq(self._destinations))")]}},
@@ -78,7 +77,6 @@ contract(O + "Logger.write", props=["C13", "C07", "C08", "C02"],
                 "write_traceback#0": [("RPREV", "R")],
                 "log_message#0": [("R", "RPREV + [E] + R")]},
          requires=[("current-ok", "cur_ok()"),
-                   ("current-rep-ok", "implies(curact() is not None, rep_ok(typed(curact(), 'Action')))"),
                    ("caller-dictionary-is-not-eliot-internal", "ref(dictionary) != ref(self._destinations._globalFields)")],
          modifies=["#LOG", "#OFFERS", "#CALLS", "#IO", "#NTOP", "field:_last_child", "field:$uuid_str"],
          ensures=[("refines-ILogger.write: one-write-then-only-reports", "LOG == old(LOG) + [write_ev(self, dictionary, serializer)] + R and all_reports(R)", ["C13", "C07"]),
